@@ -81,8 +81,22 @@ def main() -> int:
         if broken and not ctx.violations and hasattr(mod, "search") and ok_d:
             ctx.notes.append("obligation/correspondence broken -> failing-input search on the real code")
             mod.search(ctx)
-    except Exception as e:  # infrastructure failure, not a verdict
-        infra_error = "".join(traceback.format_exception(e))[-4000:]
+    except Exception as e:
+        tb_files = [f.filename for f in traceback.extract_tb(e.__traceback__)]
+        if any(str(C.REPO) in fn for fn in tb_files) and str(C.REPO) in tb_files[-1] + " ".join(tb_files[-3:]):
+            # the exception was raised INSIDE the code under test on an input the harness generated (this never happens on the tree the
+            # harness was validated on): the correspondence is broken at that call; not an infrastructure failure
+            where = [f for f in traceback.extract_tb(e.__traceback__) if str(C.REPO) in f.filename][-1]
+            broken.append(f"correspondence: the code under test raised {type(e).__name__}: {str(e)[:200]} at {where.filename.replace(str(C.REPO) + '/', '')}:{where.lineno} "
+                          f"({where.name}) during the check, on an input the harness generates for the unchanged code without error; "
+                          + "".join(traceback.format_exception(e))[-1200:])
+            try:
+                if not ctx.violations and hasattr(mod, "search"):
+                    mod.search(ctx)
+            except Exception as e2:
+                ctx.notes.append(f"failing-input search also stopped with {type(e2).__name__}: {str(e2)[:200]}")
+        else:  # infrastructure failure, not a verdict
+            infra_error = "".join(traceback.format_exception(e))[-4000:]
 
     # ---- 5. verdict ---------------------------------------------------------------------------
     known = [k for k in C.load_known_findings() if k["property"] == pid and k["kind"] == "finding"]
